@@ -538,6 +538,27 @@ func runC10(c *Ctx) {
 			}
 		}
 	}
+	// a leftmost label that begins with '*' without being the label "*" is an ordinary label (RFC 4034 3.1.3): Sign must
+	// count it, and the signature must not verify another owner as an expansion of the wildcard one level up (F44)
+	for _, alg := range []uint8{dns.ED25519, dns.ECDSAP256SHA256} {
+		for _, first := range []string{"*a", "**", "*\\.x", "*-", "a*"} {
+			zoneName := "example."
+			owner := first + ".sub." + zoneName
+			k := newSignKey(r, alg, zoneName)
+			set := []dns.RR{&dns.A{Hdr: dns.RR_Header{Name: owner, Rrtype: dns.TypeA, Class: 1, Ttl: 60}, A: []byte{192, 0, 2, 1}}}
+			rs := &dns.RRSIG{Hdr: dns.RR_Header{Ttl: 60}, Algorithm: alg, SignerName: zoneName, KeyTag: k.key.KeyTag(), Inception: 1700000000, Expiration: 1900000000}
+			if err := rs.Sign(k.signer, set); err != nil {
+				continue
+			}
+			in := fmt.Sprintf("alg=%d owner=%s", alg, hxs(owner))
+			c.Pred("star-label", "labels-count-star-prefixed-label", in, int(rs.Labels) == dns.CountLabel(owner), fmt.Sprint(rs.Labels), fmt.Sprint(dns.CountLabel(owner)), true)
+			c.Pred("star-label", "own-set-verifies", in, rs.Verify(k.key, set) == nil, "rejected", "accepted", true)
+			s2 := dns.Copy(rs).(*dns.RRSIG)
+			s2.Hdr.Name = "other.sub." + zoneName
+			set2 := []dns.RR{&dns.A{Hdr: dns.RR_Header{Name: "other.sub." + zoneName, Rrtype: dns.TypeA, Class: 1, Ttl: 60}, A: []byte{192, 0, 2, 1}}}
+			c.Pred("star-label", "altered-owner-sibling-of-star-prefixed-label-rejected", in, s2.Verify(k.key, set2) != nil, "accepted", "rejected", true)
+		}
+	}
 	// RSA keys at every supported modulus size up to the 4096-bit maximum (fixed keys, see rsakeys.go):
 	// what Sign produces with the private key must verify with the DNSKEY built from the public key
 	for _, bits := range []int{1024, 2048, 3072, 4096} {
